@@ -12,22 +12,30 @@ Record case := {
   t_fpat : ntable;              (* options.test_file_pattern on every stem *)
   ign : list str;
   usecompiled : bool;
-  walk_roots : list path;       (* directories walked (test paths, or the --package directories) *)
-  name_roots : list path;       (* test paths (module names are relative to them) *)
+  walk_roots : list proot;      (* directories walked (test paths, or the --package directories) with the package they carry *)
+  name_roots : list proot;      (* options.test_path: search paths ('' package) and --package-path DIR PKG mounts *)
   mpats : list str;             (* --module patterns as post-processed (['.'] by default) *)
   mtab : table;                 (* re.search answers for (module pattern, module name) *)
-  r_found : option (list path); (* implementation: find_test_files(options), paths below the scratch dir *)
+  r_found : option (list (path * str)); (* implementation: find_test_files(options): paths below the scratch dir, package *)
+  r_names : option (list str);  (* implementation: module names find_suites hands to import_name, in order (stubbed import) *)
   r_imported : option (list path) (* implementation: files whose module code ran, in order *)
 }.
 
 Definition opaths_eqb (a : list path) (b : option (list path)) : bool :=
   match b with None => true | Some l => list_eqb path_eqb a l end.
 
-Definition m_found (c : case) : list path :=
-  found_all (nlookup (t_ident c)) (nlookup (t_tpat c)) (nlookup (t_fpat c)) (ign c) (usecompiled c) (top c) (walk_roots c).
-Definition m_imported (c : case) : list path :=
-  map fst (imported (nlookup (t_ident c)) (nlookup (t_tpat c)) (nlookup (t_fpat c)) (ign c) (usecompiled c) (top c)
-                    (lookup (mtab c)) (walk_roots c) (name_roots c) (mpats c)).
+Definition m_found (c : case) : list (path * str) :=
+  found_all_pk (nlookup (t_ident c)) (nlookup (t_tpat c)) (nlookup (t_fpat c)) (ign c) (usecompiled c) (top c) (walk_roots c).
+Definition m_imported_pk (c : case) : list (path * str) :=
+  imported_pk (nlookup (t_ident c)) (nlookup (t_tpat c)) (nlookup (t_fpat c)) (ign c) (usecompiled c) (top c)
+              (lookup (mtab c)) (walk_roots c) (name_roots c) (mpats c).
+Definition m_imported (c : case) : list path := map fst (m_imported_pk c).
+Definition m_names (c : case) : list str := map snd (m_imported_pk c).
+Definition pk_eqb (a b : path * str) : bool := path_eqb (fst a) (fst b) && str_eqb (snd a) (snd b).
+Definition ofound_eqb (a : list (path * str)) (b : option (list (path * str))) : bool :=
+  match b with None => true | Some l => list_eqb pk_eqb a l end.
+Definition onames_eqb (a : list str) (b : option (list str)) : bool :=
+  match b with None => true | Some l => list_eqb str_eqb a l end.
 
 (* ---- the statement on the flat file listing ---- *)
 Definition pmem (p : path) (l : list path) := existsb (path_eqb p) l.
@@ -53,7 +61,7 @@ Definition should_find (c : case) (files : list path) (p : path) : bool :=
       | [] => false
       end
     | None => false
-    end) (walk_roots c).
+    end) (map fst (walk_roots c)).
 
 Fixpoint nodup_paths (l : list path) : bool :=
   match l with [] => true | p :: r => negb (pmem p r) && nodup_paths r end.
@@ -69,10 +77,23 @@ Fixpoint same_dir_sorted (l : list path) : bool :=
 Definition abs_files (c : case) : list path :=
   match top c with D n kids => map (cons n) (all_files kids) | F _ => [] end.
 
+(* the module names a file may go by: relative to a search root below which it lies, with that root's package;
+   the statement does not fix which of them discovery uses, only that --module judges the file by its name *)
+Definition cand_names (c : case) (p : path) : list (option str) :=
+  flat_map (fun r => match strip_prefix (fst r) p with
+                     | Some (_ :: _) => [name_under (usecompiled c) r p]
+                     | _ => [] end) (name_roots c).
+Definition okname (c : case) (o : option str) : bool :=
+  match o with Some m => accept (lookup (mtab c)) (mpats c) m | None => false end.
+Definition some_name_ok (c : case) (p : path) : bool := existsb (okname c) (cand_names c p).
+Definition all_names_ok (c : case) (p : path) : bool :=
+  match cand_names c p with [] => false | l => forallb (okname c) l end.
+
 Definition c14_ok (c : case) : bool :=
   let files := abs_files c in
   match r_found c with
-  | Some fl =>
+  | Some fk =>
+    let fl := map fst fk in
     nodup_paths fl && same_dir_sorted fl
     && forallb (fun p => Bool.eqb (pmem p fl) (should_find c files p)) files
     && forallb (fun p => pmem p files) fl
@@ -81,16 +102,24 @@ Definition c14_ok (c : case) : bool :=
   && match r_imported c with
      | Some il =>
        nodup_paths il
-       && forallb (fun p => should_find c files p
-                    && match module_name (usecompiled c) (name_roots c) p with
-                       | Some m => accept (lookup (mtab c)) (mpats c) m | None => false end) il
-       && forallb (fun p => negb (should_find c files p)
-                    || negb (match module_name (usecompiled c) (name_roots c) p with
-                             | Some m => accept (lookup (mtab c)) (mpats c) m | None => false end)
-                    || pmem p il) files
+       && forallb (fun p => should_find c files p && some_name_ok c p) il
+       && forallb (fun p => negb (should_find c files p) || negb (all_names_ok c p) || pmem p il) files
+     | None => true
+     end
+  && match r_names c with
+     | Some nl =>
+       (* every name handed to import is an accepted name of a file that is to be found; every file to be found all of whose
+          names are accepted is handed over under one of them; no more names than files *)
+       forallb (fun m => existsb (fun p => should_find c files p
+                                           && existsb (fun o => match o with Some m' => str_eqb m m' && okname c o | None => false end)
+                                                      (cand_names c p)) files) nl
+       && forallb (fun p => negb (should_find c files p) || negb (all_names_ok c p)
+                            || existsb (fun o => match o with Some m' => smem m' nl | None => false end) (cand_names c p)) files
+       && Nat.leb (length nl) (length (filter (should_find c files) files))
+       && Nat.leb (length (filter (fun p => should_find c files p && all_names_ok c p) files)) (length nl)
      | None => true
      end.
 
 Definition check (c : case) : nat :=
-  bit (negb (opaths_eqb (m_found c) (r_found c) && opaths_eqb (m_imported c) (r_imported c))) 1
+  bit (negb (ofound_eqb (m_found c) (r_found c) && opaths_eqb (m_imported c) (r_imported c) && onames_eqb (m_names c) (r_names c))) 1
   + bit (negb (c14_ok c)) 2.
